@@ -70,6 +70,35 @@ func (a xorAddr) AddTo(m *stun.Message) error {
 
 func aPeer(ip net.IP, port int) stun.Setter { return xorAddr{attrXORPeerAddress, ip, port} }
 
+// mappedPeer encodes an IPv4 peer address in its IPv4-mapped IPv6 notation (family 0x02,
+// ::ffff:a.b.c.d) - pion/stun's own encoder always shortens that to family 0x01, so a raw
+// client is needed to put it on the wire. The transaction id must be set before.
+type mappedPeer struct {
+	ip   net.IP
+	port int
+}
+
+func (a mappedPeer) AddTo(m *stun.Message) error {
+	ip := a.ip.To16()
+	v := make([]byte, 20)
+	v[1] = 0x02
+	binary.BigEndian.PutUint16(v[2:4], uint16(a.port)^0x2112)
+	mask := append([]byte{0x21, 0x12, 0xA4, 0x42}, m.TransactionID[:]...)
+	for i := 0; i < 16; i++ {
+		v[4+i] = ip[i] ^ mask[i]
+	}
+	m.Add(attrXORPeerAddress, v)
+	return nil
+}
+
+// peerAttr: the XOR-PEER-ADDRESS of an operation; flag "mapped" asks for the IPv4-mapped notation.
+func peerAttr(op *Op, ip net.IP, port int) stun.Setter {
+	if hasFlag(op, "mapped") && ip.To4() != nil {
+		return mappedPeer{ip, port}
+	}
+	return aPeer(ip, port)
+}
+
 func getXORAddr(m *stun.Message, t stun.AttrType) (*net.UDPAddr, bool) {
 	var x stun.XORMappedAddress
 	if err := x.GetFromAs(m, t); err != nil {
